@@ -1,6 +1,7 @@
 package props
 
 import (
+	"go/token"
 	"fmt"
 	"go/ast"
 	"go/types"
@@ -348,8 +349,16 @@ func runC17(c *Ctx) {
 			if fn == "getMinMaxLoadForReplica" {
 				exIdx = "p1"
 			}
-			r.Guard("C17-D5", u, an.Call("github.com/emirpasic/gods/maps/treemap.(*Map).Put"), "!ignore", an.GuardOpts{Min: 1})
-			// ignore is raised exactly for names on the exclusion list
+			puts := u.Match(an.Call("github.com/emirpasic/gods/maps/treemap.(*Map).Put"))
+			r.Min("C17-D5", len(puts), 1, u.Name+": candidates put into the load tree")
+			// (A) the flag arrangement: Put under !ignore, ignore raised exactly under ex == name inside a range over the
+			// exclusion list
+			flagOK := len(puts) > 0
+			for _, p := range puts {
+				if res := flow.Implies(u.SitePC(p), c.W.Parse("!ignore")); !res.Holds || res.Undecided != "" {
+					flagOK = false
+				}
+			}
 			okI := false
 			for _, s := range u.Match(an.LocalStore("ignore")) {
 				if s.RHS != nil && u.C.Term(s.RHS) == "true" {
@@ -362,7 +371,13 @@ func runC17(c *Ctx) {
 					inner = true
 				}
 			}
-			r.Check("C17-D5", u.Name+": a name on the exclusion list never becomes a candidate", "", okI && inner, "")
+			flagOK = flagOK && okI && inner
+			// (B) any arrangement (a membership helper read in place of its call, a labelled continue): from the branch
+			// taken when an element of the exclusion list equals the name of the current iteration, no Put is reachable
+			// without first passing the head of the loop over the nodes (the next name)
+			graphOK := c17ExcludedNeverPut(u, exIdx, puts)
+			r.Check("C17-D5", u.Name+": a name on the exclusion list never becomes a candidate", "", flagOK || graphOK,
+				fmt.Sprintf("flag arrangement %v, reachability argument %v", flagOK, graphOK))
 		}
 	}
 	if u := c.unit("C17-D5", c17pkg+"moveIfUnbalanced"); u != nil {
@@ -664,4 +679,64 @@ func c17D6(c *Ctx) {
 func init() {
 	old := registry["C17"].Run
 	registry["C17"].Run = func(c *Ctx) { old(c); c17D6(c) }
+}
+
+
+// c17ExcludedNeverPut: see (B) at its use.
+func c17ExcludedNeverPut(u *an.Unit, exclTerm string, puts []*an.Site) bool {
+	// the loops: outer = the range whose body contains the Put; inner = a range over the exclusion list
+	var outerHead *flow.Block
+	var outerKey, innerVal string
+	for _, s := range u.Match(an.M{}.Range()) {
+		rs := s.Rng
+		if u.C.Term(rs.X) == exclTerm && rs.Value != nil {
+			if id, ok := rs.Value.(*ast.Ident); ok {
+				innerVal = u.C.TermOfObj(u.Info().ObjectOf(id))
+			}
+			continue
+		}
+		for _, p := range puts {
+			if rs.Pos() <= p.Pos && p.Pos < rs.End() && rs.Key != nil {
+				if id, ok := rs.Key.(*ast.Ident); ok {
+					outerKey = u.C.TermOfObj(u.Info().ObjectOf(id))
+					outerHead = s.Block
+				}
+			}
+		}
+	}
+	if outerHead == nil || outerKey == "" || innerVal == "" {
+		return false
+	}
+	eq := flow.MakeCmp(token.EQL, innerVal, outerKey, "", "")
+	found := false
+	for _, b := range u.G.Blocks {
+		if b.EdgeCond == nil || !b.Reachable() {
+			continue
+		}
+		f := u.C.Formula(b.EdgeCond)
+		if res := flow.Implies(f, eq); !res.Holds || res.Undecided != "" {
+			continue
+		}
+		found = true
+		// forward from the match edge, stopping at the head of the outer loop
+		seen := map[*flow.Block]bool{}
+		work := []*flow.Block{b}
+		for len(work) > 0 {
+			x := work[len(work)-1]
+			work = work[:len(work)-1]
+			if seen[x] || x == outerHead {
+				continue
+			}
+			seen[x] = true
+			for _, p := range puts {
+				if p.Block == x {
+					return false
+				}
+			}
+			for _, e := range x.Succs {
+				work = append(work, e.To)
+			}
+		}
+	}
+	return found
 }
